@@ -351,11 +351,17 @@ impl<'tx> TxInner<'tx> {
                 file.write_all(buf.as_slice())?;
             }
 
+            // The new meta page is now visible through the memory map, so from here on every
+            // transaction on this handle works from the new state: the shared freelist has to
+            // match it even if making the meta page durable fails below. Otherwise the stale
+            // freelist would hand out pages that the new state is made of.
+            {
+                let mut lock = self.db.inner.freelist.lock()?;
+                *lock = freelist.inner.clone();
+            }
+
             file.flush()?;
             file.sync_all()?;
-
-            let mut lock = self.db.inner.freelist.lock()?;
-            *lock = freelist.inner.clone();
             Ok(())
         } else {
             unreachable!()
